@@ -13,6 +13,13 @@ import os
 import shutil
 
 _BASE = os.path.join("/tmp", "vf_scratch", str(os.getpid()))
+# every checking process gets its own persistent hash-cache directory: PersistentCache.clean_up() of one
+# process otherwise races with the deletions of another (FileNotFoundError in lstat) -- that race needs
+# concurrent processes (C10, not applicable) and must not disturb single-process harnesses
+os.makedirs(os.path.join(_BASE, "hashcache"), exist_ok=True)
+os.environ["PYDRA_HASH_CACHE"] = os.path.join(_BASE, "hashcache")
+_KEEP = []      # realised copies handed to the untraced hash function stay alive until the next reset():
+                # hash_single memoises by id(), a recycled id of a dead temporary would alias two values
 _N = [0]
 _TICK = [0]
 _real_datetime = _dt.datetime
@@ -58,6 +65,7 @@ def cleanup(d):
 
 def reset():
     """start of every harness body: forget per-process caches that would leak between paths"""
+    del _KEEP[:]
     from pydra.engine.workflow import Workflow
     try:
         Workflow.clear_cache()
@@ -126,6 +134,7 @@ def install_hash():
         if not is_tracing():
             return real(obj, **kw)
         obj = deep_realize(obj)
+        _KEEP.append(obj)
         with NoTracing():
             return real(obj, **kw)
 
